@@ -152,6 +152,7 @@ def step (s : State) (e : Ev) : Except Reject State :=
   | .read p my cheats =>
     withProc s p fun x =>
       if s.pipe < 1 then .error (.guard "read: token pipe is empty in the model" p)
+      else if x.my ≥ 1 then .error (.guard "read: a token is taken from the pipe while the process already holds one" p)
       else
         let y := { x with my := x.my + 1 }
         check "read" p y my cheats { s with procs := set s.procs p y, pipe := s.pipe - 1 }
@@ -163,11 +164,14 @@ def step (s : State) (e : Ev) : Except Reject State :=
         check "eat" p y my cheats { s with procs := set s.procs p y, cheatPipe := s.cheatPipe - 1 }
   | .cheat p n my cheats =>
     withProc s p fun x =>
+      if x.my ≠ 0 then .error (.guard "cheat: a token is synthesised while the process holds one" p)
+      else
       let y := { x with my := x.my + n, cheats := x.cheats + n }
       check "cheat" p y my cheats { s with procs := set s.procs p y }
   | .start p j my cheats =>
     withProc s p fun x =>
       if x.limbo < 1 then .error (.guard "start: no destroyed token to give to the child" p)
+      else if x.my ≠ 0 then .error (.guard "start: my_tokens was not exactly 1 (the Rust assertion)" p)
       else
         let y := { x with limbo := x.limbo - 1 }
         check "start" p y my cheats
